@@ -41,6 +41,12 @@ pub fn random_ladder(rng: &mut SplitMix64, nrep: usize) -> Ladder {
         specs.push(s);
         betas.push(if kind == 1 { 1.0 } else { [0.25, 0.5, 1.0, 2.0][(i + rng.below(2) as usize) % 4] });
     }
+    // a rung with the longitudinal field switched off next to rungs with a positive field: the container accepts it
+    // (0.0 has the sign of +h); a configuration holding field operators has weight zero on that rung
+    if base.h > 0.0 && nrep >= 2 && rng.chance(1, 3) {
+        let i = rng.below(nrep as u64) as usize;
+        specs[i].h = 0.0;
+    }
     Ladder { specs, betas }
 }
 
@@ -236,7 +242,7 @@ pub fn run(args: &Args) -> serde_json::Value {
                     if !undecided {
                         let same = (0..nrep).all(|i| cur[i].0.iter().flatten().collect::<Vec<_>>() == after[i].0.iter().flatten().collect::<Vec<_>>() && cur[i].1 == after[i].1);
                         if !same || expect_swaps != dswaps {
-                            oracle_failures.push(json!({"what": "exchange decisions differ from the exact Metropolis rule min(1, W_a(C_b)W_b(C_a)/(W_a(C_a)W_b(C_b))) applied with the same uniforms",
+                            oracle_failures.push(json!({"prop": "C05,C10", "what": "exchange decisions differ from the exact Metropolis rule min(1, W_a(C_b)W_b(C_a)/(W_a(C_a)W_b(C_b))) applied with the same uniforms",
                                 "ladder": li, "replicas": nrep, "parallel": par, "betas": lad.betas, "gammas": lad.specs.iter().map(|s| s.gamma).collect::<Vec<_>>(),
                                 "hs": lad.specs.iter().map(|s| s.h).collect::<Vec<_>>(), "edges": lad.specs.iter().map(|s| s.edges.clone()).collect::<Vec<_>>(),
                                 "expected_exchanges": expect_swaps, "counted_exchanges": dswaps,
@@ -360,7 +366,7 @@ pub fn run(args: &Args) -> serde_json::Value {
             let want = if ratio.is_nan() { 0.0 } else { ratio.min(1.0) };
             let got = t as f64 / 18446744073709551616.0;
             if (got - want).abs() > 1e-9 {
-                oracle_failures.push(json!({"what": format!("swap probability {} but min(1, W_a(C_b)W_b(C_a)/(W_a(C_a)W_b(C_b))) = {}", got, want),
+                oracle_failures.push(json!({"prop": "C05,C10", "what": format!("swap probability {} but min(1, W_a(C_b)W_b(C_a)/(W_a(C_a)W_b(C_b))) = {}", got, want),
                     "edges_a": sub.specs[0].edges, "edges_b": sub.specs[1].edges, "gamma": [sub.specs[0].gamma, sub.specs[1].gamma],
                     "h": [sub.specs[0].h, sub.specs[1].h], "betas": sub.betas,
                     "n": [before[0].0.iter().flatten().count(), before[1].0.iter().flatten().count()]}));
